@@ -59,6 +59,72 @@ def counter_bounds(f):
             hi = padd(hi, pscale(trip, k))
         if good:
             out[loc] = ({(): lo} if lo else {}, hi)
+    # counting calls: partition_point(s, p), s.iter().take_while(p).count(), s.iter().position(p) lie in [0, len(s)]
+    from .ir import subterms, short
+
+    def slice_len(t):
+        while tag(t) == 'call' and short(t[1]) in ('iter', 'into_iter', 'deref', 'as_slice') and t[2]:
+            t = t[2][0]
+        if tag(t) == 'index' and tag(t[2]) == 'agg' and 'RangeTo' in str(t[2][2]) and 'Inclusive' not in str(t[2][2]) and len(t[2][3]) == 1:
+            return poly(t[2][3][0])
+        if tag(t) == 'index' and tag(t[2]) == 'range':
+            return psub(poly(t[2][2]), poly(t[2][1]))
+        if tag(t) in ('arg', 'local'):
+            return poly(('len', t))
+        return None
+
+    def count_bound(v):
+        if tag(v) != 'call':
+            return None
+        n = short(v[1])
+        if n == 'partition_point' and v[2]:
+            return slice_len(v[2][0])
+        if n == 'count' and v[2] and tag(v[2][0]) == 'call' and short(v[2][0][1]) in ('take_while', 'filter') and v[2][0][2]:
+            return slice_len(v[2][0][2][0])
+        return None
+    cands = set()
+    for s_, d_, c, v in f.edge_conditions():
+        for z in subterms(c):
+            if tag(z) == 'call':
+                cands.add(z)
+    for z in cands:
+        b = count_bound(z)
+        if b is not None:
+            out[z] = ({}, b)
+    # counters that are either scanned or assigned a counting call
+    for loc, ss in stores.items():
+        if loc in out:
+            continue
+        ty = f.body.local_ty(loc[1])
+        if ty not in ('usize', 'u64'):
+            continue
+        his = []
+        for s in ss:
+            v = s.value
+            if tag(v) == 'const' and isinstance(v[2], int):
+                his.append({(): v[2]} if v[2] else {})
+            elif count_bound(v) is not None:
+                his.append(count_bound(v))
+            elif tag(v) == 'bin' and v[1] in ('Add', 'AddO') and v[2] == loc and tag(v[3]) == 'const' and v[3][2] == 1:
+                encl = [li for li in loops if s.bb in li['blocks']]
+                if not encl:
+                    his = None
+                    break
+                inner = min(encl, key=lambda li: len(li['blocks']))
+                it = inner['iter']
+                inits = [i for i in ss if tag(i.value) == 'const']
+                if inner['item'] is None or tag(it) != 'range' or not inits or any(i.bb in inner['blocks'] or not f.cfg.dominates(i.bb, inner['header']) for i in inits):
+                    his = None
+                    break
+                his.append(padd({(): max(i.value[2] for i in inits)} if max(i.value[2] for i in inits) else {}, psub(poly(it[2]), poly(it[1]))))
+            else:
+                his = None
+                break
+        if his:
+            # upper bound = pointwise maximum; only decidable when all candidates are equal or constants below
+            nonconst = [h for h in his if pconst(h) is None]
+            if nonconst and all(h == nonconst[0] for h in nonconst) and all(pconst(h) is None or pconst(h) == 0 for h in his):
+                out[loc] = ({}, nonconst[0])
     return out
 
 
